@@ -167,7 +167,10 @@ pub fn discover_packages_with_layout(
     let mut packages = HashMap::new();
     let mut discovery_order = Vec::new();
     let mut package_dirs = HashMap::new();
+    // imports live in a hash set: visit them in a fixed order, otherwise the order in which
+    // packages are discovered (and with it the order of the emitted code) changes from run to run
     let mut queue: Vec<String> = entry_package.imports.iter().cloned().collect();
+    queue.sort();
     let mut loaded = HashSet::new();
 
     loaded.insert(entry_name.clone());
@@ -190,7 +193,9 @@ pub fn discover_packages_with_layout(
                 package_name
             )));
         }
-        queue.extend(package.imports.iter().cloned());
+        let mut imports: Vec<String> = package.imports.iter().cloned().collect();
+        imports.sort();
+        queue.extend(imports);
         loaded.insert(declared_name.clone());
         packages.insert(declared_name.clone(), package);
         discovery_order.push(declared_name.clone());
